@@ -63,7 +63,7 @@ HINT = {name: d.hint for name, d in TYPES.items()}
 # ---------------------------------------------------------------------------------------------------------------
 # atoms
 
-CLASSES = ["int", "bool", "str", "A", "B", "C", "Sequence", "list", "SupportsInt", "Proto"]
+CLASSES = ["int", "bool", "str", "A", "B", "C", "Sequence", "list", "SupportsInt", "Proto", "Impl"]
 HINTS = ["List[int]", "list[int]", "List[str]"]
 REGEXES = ["a|b", "a.*", "a."]
 RAW = [("cls", t) for t in CLASSES + HINTS] + [("str", s) for s in NAMES + REGEXES]
